@@ -69,14 +69,14 @@ Definition rec_reqs (pcap bufcap ubuf : N) (inck : bool) (b : bytes) : list N :=
 
 Variable dstream : doracle.
 
-Lemma rd_full_pos n r : n <> 0 ->
+Lemma rd_full_pos n r : (n =? 0) = false ->
   rd_full n r =
   if n <=? blen (r_buf r)
   then (take n (r_buf r), None, {| r_buf := drop n (r_buf r); r_end := r_end r; r_seek := r_seek r |})
   else (r_buf r, Some (match r_end r with
                        | None => match r_buf r with [] => EEOF | _ => EUnexpectedEOF end
                        | Some e => e end), {| r_buf := []; r_end := r_end r; r_seek := r_seek r |}).
-Proof. intros H. unfold rd_full. destruct (N.eqb_spec n 0); [contradiction|reflexivity]. Qed.
+Proof. intros H. unfold rd_full. rewrite H. reflexivity. Qed.
 
 Lemma lc_validate_reqs usize ucrc comp b cr s oe s' :
   lc_validate lo usize ucrc comp b cr s = (oe, s') ->
@@ -106,8 +106,8 @@ Lemma load_chunk_reqs rl s oe s' : lx_chunk s = None ->
   load_chunk lo dstream rl s = (oe, s') ->
   lx_allocs s' = chunk_reqs rl (lx_bufcap s) (lx_ubuf s) (r_buf (lx_base s)) ++ lx_allocs s.
 Proof.
-  intros Hc. rewrite load_chunk_eq, Hc. unfold lc_head, chunk_reqs, chunk_clen, chunk_usize.
-  rewrite (rd_full_pos 32) by discriminate.
+  intros Hc. rewrite LexerFactsA.load_chunk_eq, Hc. unfold lc_head, chunk_reqs, chunk_clen, chunk_usize.
+  rewrite (rd_full_pos 32) by reflexivity.
   set (c := r_buf (lx_base s)).
   destruct (32 <=? blen c) eqn:E32.
   2:{ destruct (r_end (lx_base s)) as [x|]; [destruct x|destruct c];
@@ -117,7 +117,7 @@ Proof.
   rsimpl.
   destruct (lx_bufcap s <? need) eqn:Eg; cbn [andb].
   - destruct (need <? max_int32); cbn [negb]; [|intros H; inversion H; reflexivity].
-    rsimpl. rewrite (rd_full_pos need) by lia. cbn [r_buf r_end r_seek].
+    rsimpl. rewrite (rd_full_pos need) by lia. rsimpl.
     destruct (need <=? blen (drop 32 c)) eqn:En.
     2:{ destruct (r_end (lx_base s)) as [x|]; [destruct x|destruct (drop 32 c)];
           intros H; inversion H; reflexivity. }
@@ -125,7 +125,7 @@ Proof.
     cbv zeta. destruct (lc_open _ _ _ _ _) as [b' cr].
     destruct (negb (lo_validate lo)); [intros H; inversion H; reflexivity|].
     intros H. apply lc_validate_reqs in H. rewrite H. rsimpl. rewrite <- app_assoc. reflexivity.
-  - rewrite (rd_full_pos need) by lia. cbn [r_buf r_end r_seek].
+  - rewrite (rd_full_pos need) by lia. rsimpl.
     destruct (need <=? blen (drop 32 c)) eqn:En.
     2:{ destruct (r_end (lx_base s)) as [x|]; [destruct x|destruct (drop 32 c)];
           intros H; inversion H; reflexivity. }
@@ -153,7 +153,7 @@ Theorem lex_step_requests pcap s evs :
   lx_allocs (step_state (lex_step lo dstream pcap s evs)) =
   rec_reqs pcap (lx_bufcap s) (lx_ubuf s) (is_in_chunk s) (r_buf (cur s)) ++ lx_allocs s.
 Proof.
-  unfold lex_step, rec_reqs, rec_len, rec_op. rewrite (rd_full_pos 9) by discriminate.
+  unfold lex_step, rec_reqs, rec_len, rec_op. rewrite (rd_full_pos 9) by reflexivity.
   set (b := r_buf (cur s)).
   destruct (9 <=? blen b) eqn:E9.
   2:{ cbn [app]. destruct (_ && (_ || _)); cbn [step_state].
